@@ -662,6 +662,14 @@ def compare(ctx, case, line, out, expect, rep):
             return
 
 
+
+def prepare(ctx):
+    """Translator tie (see gen_tie.py): the source of this slice is re-translated to Lean on every run
+    (harness/artv/ttrans.py) and proved equal to the model the property theorems are about"""
+    from .gen_tie import gen_prepare, extra_theorems
+    from .. import ttrans
+    gen_prepare(ctx, extra_theorems("ttrans") + ['topo_match_tracking'], ttrans.COVERS)
+
 def run(ctx):
     N = ctx.scale(1200, 14000)
     lines, meta = [], []
